@@ -86,6 +86,7 @@ func Run(c *hx.Ctx) error {
 	verbose := os.Getenv("C18_VERBOSE") != ""
 	shrunk := false
 
+	var dropLater []string
 	cases := 0
 	masked := 0 // cases whose deviation is a known finding: a second defect in them would go unseen
 	nextID := 0
@@ -205,11 +206,18 @@ func Run(c *hx.Ctx) error {
 				}
 			}
 		}
+		// databases are dropped two batches later: a DROP DATABASE racing with the snapshot a flush
+		// started (the flush command returns before it is through) makes the store panic
+		// ("wal remove files failed"), which is not what this check is about
 		for _, ps := range batch {
 			ps.up.close()
-			if _, err := srv.influx("", "DROP DATABASE "+ps.db); err != nil {
+			dropLater = append(dropLater, ps.db)
+		}
+		for len(dropLater) > 2*batchSize {
+			if _, err := srv.influx("", "DROP DATABASE "+dropLater[0]); err != nil {
 				return err
 			}
+			dropLater = dropLater[1:]
 		}
 		if only >= 0 {
 			break
